@@ -527,3 +527,18 @@ Example closed_nonvacuous :
              (nth_error (unres (nameref_transform no_cs no_nonstr gen_rules ex_closed_state)) 1)
   = Some (Some (Scalar TNone SPlain "p-cm")).
 Proof. repeat split; vm_compute; reflexivity. Qed.
+
+
+(* select_unique_strict: three ConfigMaps once called "cm"; contexts none / p- / none; the referrer lives in
+   p-: the coarse pass keeps all three (an empty context matches anything), the strict one only p- *)
+Definition ex_cand_ctx (name : string) (pfx : list string) : cand :=
+  mkCand [mkId (gvk_lit "" "v1" "ConfigMap") "cm" "default"]
+         (mkId (mkGvk "" "v1" "ConfigMap" false) name "") name "" "ConfigMap" pfx [].
+Definition ex_three : list cand :=
+  [ex_cand_ctx "cm0" []; ex_cand_ctx "p-cm" ["p-"]; ex_cand_ctx "cm1" []].
+
+Example select_unique_strict_nonvacuous :
+  filter (prefix_suffix_sieve ex_ctx true) (sieve4 ex_ctx "cm" ex_three) = ex_three /\
+  filter (prefix_suffix_sieve ex_ctx false) ex_three = [ex_cand_ctx "p-cm" ["p-"]] /\
+  select_referral ex_ctx "cm" ex_three all_names_same = Ok (Some (ex_cand_ctx "p-cm" ["p-"])).
+Proof. repeat split; vm_compute; reflexivity. Qed.
